@@ -326,6 +326,95 @@ func mixed() *sched.Scenario {
 	}
 }
 
+// ---- S9: an entries sync of a publisher that has no handler (removed, as
+// after idle expiry or RemoveHandler) overlapping an announcement, or an
+// explicit sync, of the same publisher: still one sync at a time
+func entriesOfHandlerlessPublisher(other string) *sched.Scenario {
+	name := "S9-entries-sync-of-handlerless-publisher+" + other
+	return &sched.Scenario{
+		Name: name,
+		Setup: func(e *sched.Exec) ([]sched.Thread, func()) {
+			w := schedfx.New(e, schedfx.Options{Pubs: 1, ChainLen: 3, Announce: true})
+			p, ch := w.Pubs[0], w.Chains[0]
+			ech := syncfx.BuildEntryChain(p.Src, 2, syncfx.DefaultProto, "pub0-entries")
+			p.Publisher.SetRoot(ch.Cids[2])
+			w.Sub.RemoveHandler(p.Ident.ID)
+			threads := []sched.Thread{
+				{Name: "E", Fn: func() {
+					e.Log("E entries-sync begin")
+					err := w.Sub.SyncEntries(context.Background(), p.AddrInfo(), ech.Head())
+					e.Log("E entries-sync end err=%v", err)
+				}},
+				{Name: "A", Fn: func() {
+					if other == "announce" {
+						e.Log("A announce pub0[2]")
+						if err := w.Sub.Announce(context.Background(), ch.Cids[2], p.AddrInfo()); err != nil {
+							e.Log("A announce-error %v", err)
+						}
+						return
+					}
+					e.Log("A explicit-sync begin")
+					_, err := w.Sub.SyncAdChain(context.Background(), p.AddrInfo())
+					e.Log("A explicit-sync end err=%v", err)
+				}},
+			}
+			return threads, finish(e, w)
+		},
+		Check: func(e *sched.Exec) []sched.Finding {
+			out := basicFindings(e, name)
+			f, _ := e.Data.(*final)
+			if f == nil || len(out) > 0 {
+				return out
+			}
+			// (1) no two block requests of the publisher in flight at once (the
+			// head query of an explicit sync comes before that sync takes its
+			// turn, as in S4, and discovery is the transport's own business)
+			inflight := ""
+			var kinds []string // per hook call: "ad" or "entry"
+			for _, l := range e.Obs() {
+				fs := strings.Fields(l)
+				switch {
+				case len(fs) == 3 && fs[0] == "pub0" && fs[1] == "req-begin" && strings.HasPrefix(fs[2], "block"):
+					if inflight != "" {
+						out = append(out, sched.Finding{Sig: name + ":two-requests-in-flight-for-one-publisher", Msg: fmt.Sprintf("request %s begins while %s is in flight", fs[2], inflight)})
+						return out
+					}
+					inflight = fs[2]
+				case len(fs) == 3 && fs[0] == "pub0" && fs[1] == "req-end" && fs[2] == inflight:
+					inflight = ""
+				case len(fs) == 4 && fs[0] == "hook":
+					if fs[2] == "pub0" {
+						kinds = append(kinds, "ad")
+					} else {
+						kinds = append(kinds, "entry")
+					}
+				case strings.HasPrefix(l, "E entries-sync end") && !strings.HasSuffix(l, "err=<nil>"):
+					out = append(out, sched.Finding{Sig: name + ":entries-sync-failed", Msg: l})
+				}
+			}
+			// (2) hook calls of the two syncs do not interleave
+			switches := 0
+			for i := 1; i < len(kinds); i++ {
+				if kinds[i] != kinds[i-1] {
+					switches++
+				}
+			}
+			if switches > 1 {
+				out = append(out, sched.Finding{Sig: name + ":hook-calls-of-two-syncs-interleave", Msg: fmt.Sprint(kinds)})
+			}
+			// the latest-synced value (block 0, from the set-up) survives the
+			// removal of the handler, so the ad sync covers blocks 2 and 1
+			if len(kinds) != 4 {
+				out = append(out, sched.Finding{Sig: name + ":wrong-number-of-hook-calls", Msg: fmt.Sprintf("%v (want 2 entry chunks and 2 advertisements)", kinds)})
+			}
+			if f.latest[0] != 2 {
+				out = append(out, sched.Finding{Sig: name + ":latest-not-last-announced", Msg: fmt.Sprintf("latest synced is block[%d], want block[2]; events %v", f.latest[0], f.events)})
+			}
+			return out
+		},
+	}
+}
+
 // ---- S5: two explicit syncs with different scoped hooks
 func scoped() *sched.Scenario {
 	name := "S5-scoped-hooks"
@@ -388,7 +477,7 @@ func scoped() *sched.Scenario {
 
 func TestCheck(t *testing.T) {
 	r := vp.New("C08", "model_checking",
-		"scenarios over the real subscriber built with the instrumentation overlay (gated in-memory publishers, chains of 3-4 signed ads, first ad pre-synced): S1 burst of 3 announcements to one publisher; S2 the same with a failing block request; S3 k publishers x 2 announcements with MaxAsyncConcurrency unset/1/2; S4 announcements plus an explicit sync (queried head) of the same publisher; S5 two explicit syncs of one publisher with different scoped hooks; S8 the burst of S1 under MaxAsyncConcurrency(2), i.e. with free slots. All interleavings of harness threads, library goroutines (watcher, per-announcement handler, distributor), publisher requests and hook calls at the scheduling points (every lock, atomic, channel operation, select, spawn, request, hook call, observation) up to the preemption bound. states = distinct decision states; transitions = scheduling steps; traces = executions of the real code.",
+		"scenarios over the real subscriber built with the instrumentation overlay (gated in-memory publishers, chains of 3-4 signed ads, first ad pre-synced): S1 burst of 3 announcements to one publisher; S2 the same with a failing block request; S3 k publishers x 2 announcements with MaxAsyncConcurrency unset/1/2; S4 announcements plus an explicit sync (queried head) of the same publisher; S5 two explicit syncs of one publisher with different scoped hooks; S8 the burst of S1 under MaxAsyncConcurrency(2), i.e. with free slots; S9 an entries sync of a publisher whose handler was removed overlapping an announcement / an explicit sync of that publisher. All interleavings of harness threads, library goroutines (watcher, per-announcement handler, distributor), publisher requests and hook calls at the scheduling points (every lock, atomic, channel operation, select, spawn, request, hook call, observation) up to the preemption bound. states = distinct decision states; transitions = scheduling steps; traces = executions of the real code.",
 		"cooperative scheduling at synchronization operations; select statements try cases in source order; bursts of 3 announcements, at most 3 publishers",
 		"discovery requests are made in a free-running warm-up sync before the explored part",
 	)
@@ -402,7 +491,7 @@ func TestCheck(t *testing.T) {
 	// S8: the burst of S1 under a limit of concurrent announce-triggered syncs
 	// that leaves slots free (one publisher, limit 2): announcements of one
 	// publisher are handled one after the other whatever the limit is
-	scs := []*sched.Scenario{burstOf("S6b-reannounce-synced-head-then-one-new", -1, []int{0, 1}), burstOf("S6-reannounce-synced-head-then-new", -1, []int{0, 1, 2}), multiOf(3, 1, 1, true), burst("S1-burst", -1), burstOf("S8-burst-limit2", -1, []int{1, 2, 3}, dagsync.MaxAsyncConcurrency(2)), multi(2, 0), multi(2, 1), mixed(), scoped()}
+	scs := []*sched.Scenario{burstOf("S6b-reannounce-synced-head-then-one-new", -1, []int{0, 1}), burstOf("S6-reannounce-synced-head-then-new", -1, []int{0, 1, 2}), multiOf(3, 1, 1, true), burst("S1-burst", -1), burstOf("S8-burst-limit2", -1, []int{1, 2, 3}, dagsync.MaxAsyncConcurrency(2)), multi(2, 0), multi(2, 1), mixed(), scoped(), entriesOfHandlerlessPublisher("announce"), entriesOfHandlerlessPublisher("explicit")}
 	if thorough {
 		scs = append(scs, burst("S2-burst-failing-request", 2), multi(2, 2), multi(3, 1), multi(3, 2))
 	}
